@@ -622,6 +622,32 @@ def sysarb_stopped_cases(rng, n):
     return out
 
 
+def dropped_cases(rng, n):
+    """arbiters whose owner value was dropped (not stopped) before the system stop: there is no join to show that their event loop
+    ended, so after run() has returned a command is sent through a retained handle — it must be refused or at least never start"""
+    out = []
+    for r in range(n):
+        na = rng.randint(1, 3)
+        ops = ["n:" + rng.choice("sf") for _ in range(na)]
+        dropped = [k for k in range(na) if rng.random() < 0.6] or [rng.randrange(na)]
+        for k in range(na):
+            if rng.random() < 0.4:
+                ops.append("%s:%d:%s:%s" % ("sf" if rng.random() < 0.5 else "sp", k, rng.choice(["c", "p", "b"]), rng.choice("oh")))
+        for k in dropped:
+            ops.append("d:%d" % k)
+        ops.append("ss:%d:%s" % (rng.choice(CODES), rng.choice("ftf")))
+        ops.append("wr")
+        for k in dropped:
+            for _ in range(rng.randint(1, 2)):
+                ops.append("%s:%d:c:%s" % ("sf" if rng.random() < 0.5 else "sp", k, rng.choice("ht")))
+        for k in range(na):
+            if k not in dropped:
+                ops.append("j:%d" % k)
+        seed = rng.randrange(1, 10 ** 6) * 4 + r % 4
+        out.append("%s %d %s" % ("R" if r % 3 == 0 else "W", seed, " ".join(ops)))
+    return out
+
+
 def busy_system_cases(rng, n):
     """the system thread is kept busy (d:90 ... d:91: it drains nothing) while arbiters are created, stopped early and the system is
     stopped: registrations, deregistrations and the exit command pile up in the system's command queue and must all be honoured"""
@@ -681,6 +707,7 @@ def check(ctx, pid):
     if flavour == "c09":
         cases += busy_system_cases(ctx.rng, 120 if quick else 2500)
         cases += sysarb_stopped_cases(ctx.rng, 60 if quick else 1200)
+        cases += dropped_cases(ctx.rng, 60 if quick else 1200)
     cases += burst_cases(ctx.rng, 10 if quick else 200, flavour)
     for i, s in enumerate(scripts):
         base = ctx.rng.randrange(1, 10 ** 6) * 4
